@@ -1,7 +1,7 @@
 (* C01 -- store capacity is never exceeded; a granted space reservation is always honoured.
    Final statements only; proofs live in theories/Stores. *)
 From Coq Require Import List ZArith Bool Arith.
-From FV Require StoreP StorePInv StoreB StoreBInv.
+From FV Require StoreP StorePInv StoreB StoreBInv StoreBCap World Factory FactoryInv FactoryQueue.
 Import ListNotations.
 
 (* ReservableReqStore / ReservablePriorityReqStore / ReservablePriorityReqFilterStore:
@@ -36,6 +36,24 @@ Theorem C01_granted_put_ok_bound :
     StoreBInv.Inv (StoreB.step_st s (StoreB.Put p t i)).
 Proof. exact StoreBInv.granted_put_ok. Qed.
 Print Assumptions C01_granted_put_ok_bound.
+
+(* one store operation keeps the bound in EVERY state and for EVERY argument (no side condition on the
+   items that are put), so it holds on every edge of every factory: *)
+Theorem C01_capacity_step_unconditional :
+  forall s o, StoreBCap.CapOK s -> StoreBCap.CapOK (StoreB.step_st s o).
+Proof. exact StoreBCap.cap_step. Qed.
+Print Assumptions C01_capacity_step_unconditional.
+
+(* every configuration whose edges start within their capacity (e.g. empty), every number of kernel
+   steps: on every Buffer / Fleet edge of the factory, granted space reservations + items never exceed
+   the capacity (theories/Factory/FactoryQueue.v, lifted through every process block) *)
+Theorem C01_capacity_in_every_factory :
+  forall nodes edges order n, Forall (fun ed => StoreBCap.CapOK (World.est ed)) edges ->
+    forall i ed, nth_error (World.wedges (FactoryInv.iter_fstep n (Factory.mk_world nodes edges order))) i = Some ed ->
+      (length (StoreB.putres (World.est ed)) + length (StoreB.transit (World.est ed)) + length (StoreB.ready (World.est ed))
+       <= StoreB.cap (World.est ed))%nat.
+Proof. exact FactoryQueue.capacity_respected_everywhere. Qed.
+Print Assumptions C01_capacity_in_every_factory.
 
 (* non-vacuity: a full buffer with a granted reservation outstanding and a request waiting *)
 Example C01_witness :
